@@ -224,6 +224,8 @@ def rule_rollback(ctx, rule='R04.7'):
 
 
 def run(ctx):
+    from . import c01 as _c01
+    _c01.rule_central_body_sums(ctx)     # R01.10: momentum balance of the central body uses completed sums
     from . import c01
     c01.rule_force_terms_flag(ctx)     # R01.12: no integrator inherits another one's list of left-out force terms (energy error of order one)
     c02.rule_pair_domains(ctx)                 # R02.8: each pair enters the kick once (a double-counted star term breaks energy conservation)
